@@ -47,7 +47,7 @@ def jobs(tier, seed):
         shapes.update({
             "plain5": [F([S(5)])],
             "bg2+rule2+2": [F([R([S(2)], bg=2)], bg=2)],
-            "two-share-bg": [F([S(2), R([S(1), O(1, [(2, [])])], bg=1)], bg=1)],
+            "two-share-bg-param": [F([S(1), R([S(1), O(1, [(2, [])])], bg=1, bgp=True)], bg=1)],
             "wip-rule": [F([R([S(3)], tags=["wip"], bg=1)])],
         })
     for name, sh in shapes.items():
@@ -76,7 +76,7 @@ def jobs(tier, seed):
                   min_paths=50, cost=300, validate=150))
     if tier == "thorough":
         js.append(Job("rerun.row", "vlib.stage1:h_stage1",
-                      {"shapes": [F([O(2, [(2, [])]), S(1)], bg=1)], "opts": {"out_dom": {"*": [0, 5]}, "stop": "sym", "rerun_reset": True},
+                      {"shapes": [F([O(1, [(2, [])]), S(1)], bg=1)], "opts": {"out_dom": {"*": [0, 2]}, "rerun_reset": True, "undef": False},
                        "checks": ["steps", "rerun"]},
                       reach=["C02.rerun.call-log==RunSpec(OUT2)"], min_paths=50, cost=3000, validate=3000))
     return js
